@@ -61,3 +61,28 @@ async fn d44_cached_verdict_outlives_signature() {
     assert!(late2, "FAILING HISTORY: check_sig_cached rejects a signature 2 s after its inception time (the verdict computed before that is served from the cache)");
 }
 
+
+/// D56 (C17): signature times are serial numbers (RFC 4034 3.1.5; RFC 4035 5.3.1 compares "the validator's notion of the
+/// current time" with them). A signature whose validity period crosses the 2^32 wrap of the 32-bit time (inception just
+/// below 2^32, expiration just above 0) is valid while the clock is inside the period -- before and after the wrap.
+#[tokio::test]
+async fn d56_validity_window_across_wrap() {
+    // 50 seconds before the 32-bit time wraps
+    MockClock::set_system_time(core::time::Duration::from_secs(4_294_967_246));
+    let cache = SigCache::new(10);
+    let signer = n("example.");
+    // valid from 100 s ago until 100 s from now: the expiration time is 50 as a number
+    let (group, sig, dnskey) = signed_group(-100, 100);
+    assert!(sig.data().expiration().into_int() < 100, "test setup: the expiration time is meant to lie behind the wrap");
+    let tag = dnskey.key_tag();
+    assert!(group.check_sig(&sig, &signer, &dnskey, &signer, tag),
+        "FAILING HISTORY: clock at 2^32 - 50, signature valid [now - 100, now + 100] (expiration 50 after the wrap): check_sig rejects it");
+    assert!(group.check_sig_cached(&sig, &signer, &dnskey, &signer, tag, &cache).await,
+        "FAILING HISTORY: clock at 2^32 - 50, signature valid [now - 100, now + 100]: check_sig_cached rejects it");
+    // a signature that expired 10 s ago and one that starts in 10 s are still refused there
+    let (g2, s2, k2) = signed_group(-100, -10);
+    assert!(!g2.check_sig(&s2, &signer, &k2, &signer, k2.key_tag()), "an expired signature is accepted near the wrap");
+    let (g3, s3, k3) = signed_group(10, 100);
+    assert!(!g3.check_sig(&s3, &signer, &k3, &signer, k3.key_tag()), "a signature that is not valid yet is accepted near the wrap");
+    std::println!("OK d56: validity periods across the 2^32 wrap are judged in serial arithmetic");
+}
